@@ -148,3 +148,75 @@ def banned_calls(ctx, F, rule, banned, fns, what):
                 ctx.ob(rule, "%s calls %s" % (f["def"], d), False, "%s: %s must not be called (%s)" % (f["def"], d, what),
                        site=ctx.site_of(F, f["def"], b), key="%s|%s|%s" % (rule, f["def"], d))
     return n
+
+
+# ---- accumulating / discarding consumers ---------------------------------------------------------------------------
+
+DISCARDING = ("std::iter::Iterator::count", "std::iter::Iterator::last", "std::iter::Iterator::for_each", "std::iter::Iterator::nth",
+              "std::iter::Iterator::max", "std::iter::Iterator::min", "std::iter::Iterator::skip_while", "std::mem::drop")
+RESULTISH = ("std::result::Result<", "std::option::Option<std::result::Result<")
+
+
+def closure_types(F):
+    """type string of a closure -> its function record"""
+    out = {}
+    for g in F.identity_fns():
+        if g.get("kind") == "Closure" and len(g["locals"]) > 1:
+            ty = g["locals"][1]["ty"]
+            for pre in ("&mut ", "&"):
+                if ty.startswith(pre):
+                    ty = ty[len(pre):]
+            out[ty] = g
+    return out
+
+
+def _arg_ty(a):
+    return (a.get("p") or {}).get("ty") or a.get("ty") or ""
+
+
+def check_accumulators(ctx, F, rule, fns):
+    """(a) `fold` with a Result accumulator: the closure must hand an `Err` accumulator on (evaluated with acc := Err(e));
+       (b) an iterator whose items are produced by a closure returning a Result must not be consumed by an adaptor that
+           throws the items away (count, last, for_each, nth, max, min)."""
+    import re
+    ct = closure_types(F)
+    n = 0
+    for f in fns:
+        for b, t in mir.calls(f):
+            d = mir.callee_decl(t) or ""
+            args = t.get("args", [])
+            site = ctx.site_of(F, f["def"], b)
+            if d == "std::iter::Iterator::fold" and len(args) == 3 and _arg_ty(args[1]).startswith(RESULTISH):
+                n += 1
+                g = ct.get(_arg_ty(args[2]))
+                inst = "%s :: fold" % f["def"]
+                key = "%s|fold|%s" % (rule, f["def"])
+                if g is None:
+                    ctx.unanalysable(rule, inst, "the folding function of a Result accumulator is not a closure of this crate")
+                    continue
+                try:
+                    e0 = ('err', 'accumulator')
+                    ps = absint.Interp(F, inline=modular_inline).run(g, args=[None, absint.ERR(e0), None])
+                except absint.Unanalysable as e:
+                    ctx.unanalysable(rule, inst, str(e))
+                    continue
+                bad = [absint.term_str(p.ret)[:100] for p in ps if p.status == 'return' and not carries_error(p.ret, e0)]
+                bad += ["a path panics" for p in ps if p.status == 'panic']
+                ctx.ob(rule, inst, not bad, "an Err accumulator is handed on by every path of the folding closure" if not bad else
+                       "the folding closure drops a failed accumulator (an earlier iteration's error is lost): returns %s" % bad[:2],
+                       site=site, key=key)
+            elif d in DISCARDING and args:
+                recv = _arg_ty(args[0])
+                fall = []
+                for m in re.findall(r"\{closure@[^}]*\}", recv):
+                    g = ct.get(m)
+                    if g is not None and g["locals"][0]["ty"].startswith(RESULTISH):
+                        fall.append(g["def"])
+                if d == "std::mem::drop" and recv.startswith(RESULTISH):
+                    fall.append("a Result value")
+                if fall:
+                    n += 1
+                    ctx.ob(rule, "%s :: %s" % (f["def"], d.split("::")[-1]), False,
+                           "%s discards the Results produced by %s: a failure is never reported" % (d, ", ".join(fall)), site=site,
+                           key="%s|%s|%s" % (rule, d.split("::")[-1], f["def"]))
+    return n
